@@ -55,7 +55,13 @@ func (c *cmpCase) run() (obs string, block []byte) {
 						s[j] = byte('a' + j%(1+hr.intn(9)))
 					}
 				}
-				f(s, make([]byte, lz4.CompressBlockBound(len(s))))
+				if hr.intn(2) == 0 {
+					// an undersized destination: the call fails or reports incompressible data,
+					// and leaves whatever state it leaves in the object
+					f(s, make([]byte, hr.intn(len(s)/2+1)))
+				} else {
+					f(s, make([]byte, lz4.CompressBlockBound(len(s))))
+				}
 			}
 		}
 		switch {
@@ -240,6 +246,21 @@ func genSource(r *rng, n int) []byte {
 				}
 			}
 		}
+	case 6: // a match-rich prefix followed by 15..300 bytes without repeats: long final literal run
+		tail := 15 + r.intn(60)
+		if r.intn(4) == 0 {
+			tail = 255 + r.intn(60)
+		}
+		if tail > n {
+			tail = n
+		}
+		p := 1 + r.intn(6)
+		for i := 0; i < n-tail; i++ {
+			b[i] = byte('a' + i%p)
+		}
+		for i := n - tail; i < n; i++ {
+			b[i] = byte(37*i + 11*(i/7) + 5)
+		}
 	default:
 		t := loadText()
 		off := r.intn(len(t))
@@ -287,12 +308,30 @@ func compCmp(o *out, seed uint64, tier string) {
 		}
 	}
 	// 2. every destination length 0..bound+3 for a few compressible sources
-	for rep := 0; rep < 3*mult; rep++ {
+	for rep := 0; rep < 6*mult; rep++ {
 		n := 20 + r.intn(120)
 		src := genSource(r, n)
-		algo, d := pickAlgo()
-		for dl := 0; dl <= lz4.CompressBlockBound(n)+3; dl++ {
-			emit(&cmpCase{src: src, algo: algo, depth: d, dstlen: dl, ep: 1, stale: r.intn(1000)}, "all-dst-lengths")
+		if rep%2 == 1 {
+			// long final literal run after at least one match
+			n = 60 + r.intn(80)
+			src = make([]byte, n)
+			tail := 15 + r.intn(30)
+			for i := range src {
+				if i < n-tail {
+					src[i] = byte('a' + i%(1+rep%5))
+				} else {
+					src[i] = byte(37*i + 11*(i/7) + 5)
+				}
+			}
+		}
+		for _, algo := range []string{"fast", "hc"} {
+			d := 0
+			if algo == "hc" {
+				d = hcDepths[r.intn(len(hcDepths))]
+			}
+			for dl := 0; dl <= lz4.CompressBlockBound(n)+3; dl++ {
+				emit(&cmpCase{src: src, algo: algo, depth: d, dstlen: dl, ep: 1, stale: r.intn(1000)}, "all-dst-lengths")
+			}
 		}
 	}
 	// 3. medium sources, at bound and below
